@@ -293,6 +293,11 @@ for _cls, _kw in (("hexital.indicators.sma.SMA", {"period": "int"}), ("hexital.i
                   ("hexital.indicators.aroon.AROON", {"period": "int"}), ("hexital.indicators.adx.ADX", {"period": "int", "period_signal": "int"}),
                   ("hexital.indicators.obv.OBV", {}), ("hexital.indicators.vwap.VWAP", {"period": "int"})):
     HEX_TASKS[H + "_build_indicator#settings-of-" + _cls.rsplit(".", 1)[1]] = dict(qualname=H + "_build_indicator", builder=roundtrip_builder(_cls, dict(_kw, round_value="int0")), contract=ROUNDTRIP)
+# naming fields travel too: name_suffix alone, and together with fullname_override
+for _tag, _kw in (("suffix", {"period": "int", "name_suffix": "sfx"}), ("override+suffix", {"period": "int", "name_suffix": "sfx", "fullname_override": "custom"}),
+                  ("timeframe", {"period": "int", "timeframe": "T5", "timeframe_fill": True})):
+    HEX_TASKS[H + "_build_indicator#settings-of-EMA[" + _tag + "]"] = dict(
+        qualname=H + "_build_indicator", builder=roundtrip_builder("hexital.indicators.ema.EMA", dict(_kw, round_value="int0")), contract=ROUNDTRIP)
 # the Amorph wrapper: the wrapped function travels by name, its arguments under "args", falsy fields (round_value=0) must survive
 HEX_TASKS[H + "_build_indicator#settings-of-Amorph"] = dict(
     qualname=H + "_build_indicator",
